@@ -188,6 +188,7 @@ pub fn run_tcp(plan: &Plan, eager: bool) -> Result<TcpRun, String> {
         Ok(Ok(())) => RunEnd::Ok.class(),
         Ok(Err(ShimErr::Io(_))) => "ioerr",
         Ok(Err(ShimErr::Token(_))) => "token",
+        Err(_) if world.borrow().app_panic.is_some() => "token",
         Err(_) => "panic",
     };
     let (bytes, client_timed_out) = client.join().map_err(|_| "client thread panicked".to_string())?;
